@@ -88,3 +88,7 @@ Definition api_tcrdist_nn (chain k : nat) (trimmed : bool) (maxt : Z) (ntrim ctr
   tcrdist_nn vdists_alpha vdists_beta (cdr3_standin ntrim ctrim w gap) chain k
              (if trimmed then Some (ntrim, ctrim) else None) maxt (map mk_tcr rows).
 Definition api_vtable_labels (alpha : bool) : list str := fst (fst (if alpha then vdists_alpha else vdists_beta)).
+
+(* ---- C10 ---- *)
+From PV Require Import model.Output.
+Definition api_coo_dense (nrows ncols : nat) (trip : list (nat * nat * Z)) : list (list Z) := coo_dense nrows ncols trip.
